@@ -98,6 +98,11 @@ def check_C17(ctx):
         checks_prop.c17_engine_part(ctx)
     except ImportError:
         pass
+    try:
+        import checks_fol
+        checks_fol.c17_fol_part(ctx)
+    except ImportError:
+        pass
     return ctx.finish("proof", pr, st, rule="K2: exhaustive grid of stored bounds x alpha; non-trivial = every scenario (distinct by construction); "
                       "monitor compares the implementation with an independently written table of the documented states")
 
